@@ -232,6 +232,32 @@ def run_c07(prop, cfg, tier, seed):
             if f[3] != f[4]:
                 viol.append((cl, dl, "", "builder.PrepareGrammar gives verdict %s for the grammar and %s after inserting shadowed (earlier, never executed) duplicate definitions of non-first rules: the analysis does not look at the definitions that the generated parser runs" % (f[3], f[4])))
 
+    # ---- the acceptance path: what builder.BuildParser (which is what the tool calls) does with the analysis' verdict
+    # BuildParser emits the whole runtime each time (~2 ms per call): in the quick tier every grammar without a leader,
+    # a share of the left-recursive ones and of the others
+    if tier != "quick":
+        acases = cases
+    else:
+        byv = {}
+        for cl, il in zip(cases, impl):
+            byv.setdefault(il.split(" ", 3)[2:3][0] if len(il.split(" ", 3)) > 2 else "?", []).append(cl)
+        acases = byv.get("noleader", [])[:1500] + byv.get("ok1", [])[:2500] + byv.get("ok0", [])[:1500]
+    ap = subprocess.run([PVMID, "-accept"], input=("\n".join(acases) + "\n").encode(), stdout=subprocess.PIPE, stderr=subprocess.PIPE, timeout=3600)
+    if ap.returncode != 0:
+        raise RuntimeError("pvmid -accept failed: " + ap.stderr.decode()[-2000:])
+    want = {"ok0": ("ok", "ok"), "ok1": ("lr", "ok"), "noleader": ("noleader", "noleader")}
+    acc_checked = 0
+    for cl, al in zip(acases, ap.stdout.decode().splitlines()):
+        f = al.split(" ")
+        if len(f) != 5 or f[2] not in want:
+            continue
+        acc_checked += 1
+        w0, w1 = want[f[2]]
+        if f[3] == "ok" and w0 != "ok":
+            viol.insert(0, (cl, al, "", "builder.PrepareGrammar finds left recursion in this grammar (verdict %s) but builder.BuildParser WITHOUT SupportLeftRecursion accepts it and emits a parser: a rule can re-enter itself at the same offset without bound" % f[2]))
+        elif (f[3], f[4]) != (w0, w1) and "err" not in (f[3], f[4]):
+            viol.append((cl, al, "", "builder.BuildParser answers %s without and %s with SupportLeftRecursion for a grammar on which builder.PrepareGrammar says %s (expected %s / %s)" % (f[3], f[4], f[2], w0, w1)))
+
     # ---- leaders: every cycle of the first graph of a grammar accepted with left-recursion support passes through one
     # (put first: these are concrete grammars on which the generated parser recurses without bound)
     lead = []
